@@ -172,6 +172,66 @@ func init() {
 }
 
 // ---------------------------------------------------------------------------
+// the context string is attacker-influenced input too (it usually comes from the protocol message that
+// carries the signature): every length 0..255 and beyond, against a signature made with some context of
+// that length class. The verification functions document a false result, never a panic.
+
+func init() {
+	ctxOf := func(i int) string {
+		l := []int{2, 8, 1, 254, 255, 127, 128}[i%7]
+		return string(seedBytes(l, uint64(120+i)))
+	}
+	{
+		sk := ed25519.NewKeyFromSeed(seedBytes(ed25519.SeedSize, 112))
+		pk := sk.Public().(ed25519.PublicKey)
+		sigPh := ed25519.SignPh(sk, signMsg, ctxOf(4))
+		sigCtx := ed25519.SignWithCtx(sk, signMsg, ctxOf(4))
+		if !ed25519.VerifyPh(pk, signMsg, sigPh, ctxOf(4)) || !ed25519.VerifyWithCtx(pk, signMsg, sigCtx, ctxOf(4)) {
+			panic("ed25519: harness signature with a 255-byte context does not verify")
+		}
+		valid := func(i int) []byte { return []byte(ctxOf(i)) }
+		Register(
+			Entry{Name: "ed25519.VerifyPh(ctx)", Group: "sign", NValid: 7, Valid: valid,
+				Call: func(b []byte) { _ = ed25519.VerifyPh(pk, signMsg, sigPh, string(b)) }},
+			Entry{Name: "ed25519.VerifyWithCtx(ctx)", Group: "sign", NValid: 7, Valid: valid,
+				Call: func(b []byte) { _ = ed25519.VerifyWithCtx(pk, signMsg, sigCtx, string(b)) }},
+			Entry{Name: "ed25519.VerifyAny/ed25519ph(ctx)", Group: "sign", NValid: 7, Valid: valid,
+				Call: func(b []byte) {
+					_ = ed25519.VerifyAny(pk, signMsg, sigPh, ed25519.SignerOptions{Hash: crypto.SHA512, Context: string(b), Scheme: ed25519.ED25519Ph})
+				}},
+			Entry{Name: "ed25519.VerifyAny/ed25519ctx(ctx)", Group: "sign", NValid: 7, Valid: valid,
+				Call: func(b []byte) {
+					_ = ed25519.VerifyAny(pk, signMsg, sigCtx, ed25519.SignerOptions{Hash: crypto.Hash(0), Context: string(b), Scheme: ed25519.ED25519Ctx})
+				}},
+		)
+	}
+	{
+		sk := ed448.NewKeyFromSeed(seedBytes(ed448.SeedSize, 113))
+		pk := sk.Public().(ed448.PublicKey)
+		sig := ed448.Sign(sk, signMsg, ctxOf(4))
+		sigPh := ed448.SignPh(sk, signMsg, ctxOf(4))
+		if !ed448.Verify(pk, signMsg, sig, ctxOf(4)) || !ed448.VerifyPh(pk, signMsg, sigPh, ctxOf(4)) {
+			panic("ed448: harness signature with a 255-byte context does not verify")
+		}
+		valid := func(i int) []byte { return []byte(ctxOf(i)) }
+		Register(
+			Entry{Name: "ed448.Verify(ctx)", Group: "sign", NValid: 7, Valid: valid,
+				Call: func(b []byte) { _ = ed448.Verify(pk, signMsg, sig, string(b)) }},
+			Entry{Name: "ed448.VerifyPh(ctx)", Group: "sign", NValid: 7, Valid: valid,
+				Call: func(b []byte) { _ = ed448.VerifyPh(pk, signMsg, sigPh, string(b)) }},
+			Entry{Name: "ed448.VerifyAny/ed448(ctx)", Group: "sign", NValid: 7, Valid: valid,
+				Call: func(b []byte) {
+					_ = ed448.VerifyAny(pk, signMsg, sig, ed448.SignerOptions{Hash: crypto.Hash(0), Context: string(b), Scheme: ed448.ED448})
+				}},
+			Entry{Name: "ed448.VerifyAny/ed448ph(ctx)", Group: "sign", NValid: 7, Valid: valid,
+				Call: func(b []byte) {
+					_ = ed448.VerifyAny(pk, signMsg, sigPh, ed448.SignerOptions{Hash: crypto.Hash(0), Context: string(b), Scheme: ed448.ED448Ph})
+				}},
+		)
+	}
+}
+
+// ---------------------------------------------------------------------------
 // package-level functions of the Dilithium family
 
 // modePkg describes one package of the family through closures (the key types differ per package).
